@@ -118,6 +118,8 @@ def check(run):
         run.fail("VAR", "formula", sg.where(s.fn.lineno), fq, f"{len(upd)} importance / {len(vup)} variance updates",
                  "importance and variance trackers must each be updated exactly once")
     getters(sg, "OFFSET")
+    from .explcore import tracker_operator
+    tracker_operator(run, run.prog, sg.cls, "OFFSET", "sage.operator")
 
     from .c06 import depends_on
     depends_on(run, "C10")
